@@ -284,6 +284,10 @@ class ExcAnalysis:
                     # `first, *rest = xs` needs one element: a non-emptiness test dominates
                     ob(n, 'unpack', 'ValueError', f'`{ast.unparse(n)[:60]}`',
                        discharged='head / rest unpacking of a sequence that a dominating test shows to be non-empty')
+                elif sum(isinstance(e, ast.Starred) for e in tgt.elts) == 1 and len(tgt.elts) == 2 and isinstance(n.value, ast.Name) and \
+                        self._param_nonempty_everywhere(fn, n.value.id):
+                    ob(n, 'unpack', 'ValueError', f'`{ast.unparse(n)[:60]}`',
+                       discharged=f'head / rest unpacking of parameter `{n.value.id}`, which is non-empty at every call site of {fn.qualname}')
                 elif self._unpack_of_returned_tuple(fn, n, len(tgt.elts)):
                     ob(n, 'unpack', 'ValueError', f'`{ast.unparse(n)[:60]}`',
                        discharged='every return of the called package function is a tuple display of that length')
@@ -1511,6 +1515,38 @@ class ExcAnalysis:
     def _call(self, fn: FuncInfo, n: ast.Call, ob):
         A, prog, env = self.abs, self.prog, self.cg.env(fn)
         f = n.func
+        # string.Template(<constant>).substitute(asdict(<record>)): fails on a placeholder that the record has no field for
+        if isinstance(f, ast.Attribute) and f.attr in ('substitute', 'safe_substitute') and isinstance(f.value, ast.Call) and \
+                isinstance(f.value.func, (ast.Name, ast.Attribute)):
+            tsym = prog.resolve_expr_symbol(fn.module, f.value.func)
+            if isinstance(tsym, tuple) and tsym[0] == 'ext' and tsym[1] == 'string.Template' and len(f.value.args) == 1 and \
+                    isinstance(f.value.args[0], ast.Constant) and isinstance(f.value.args[0].value, str):
+                import string as _string
+                text = f.value.args[0].value
+                names, invalid = set(), False
+                for m_ in _string.Template.pattern.finditer(text):
+                    if m_.group('invalid') is not None:
+                        invalid = True
+                    nm_ = m_.group('named') or m_.group('braced')
+                    if nm_:
+                        names.add(nm_)
+                have = None
+                if len(n.args) == 1 and not n.keywords and isinstance(n.args[0], ast.Call) and len(n.args[0].args) == 1 and \
+                        isinstance(n.args[0].func, (ast.Name, ast.Attribute)):
+                    asym = prog.resolve_expr_symbol(fn.module, n.args[0].func)
+                    t_ = strip_opt(A.type_at(fn, n.args[0].args[0], n))
+                    if t_[0] != 'cls':
+                        t_ = strip_opt(A.at(fn, n.args[0].args[0], n).type)
+                    if isinstance(asym, tuple) and asym[0] == 'ext' and asym[1] == 'dataclasses.asdict' and t_[0] == 'cls' and t_[1] in prog.classes:
+                        have = set(prog.class_fields(prog.classes[t_[1]]))
+                elif not n.args and n.keywords and all(k.arg for k in n.keywords):
+                    have = {k.arg for k in n.keywords}
+                if f.attr == 'safe_substitute' or (have is not None and not invalid and names <= have):
+                    ob(n, 'template', 'KeyError', f'`{ast.unparse(f)[:40]}...`',
+                       discharged=f'every placeholder of the constant template ({len(names)}) is a field of the record / a keyword given')
+                else:
+                    ob(n, 'template', 'KeyError', f'string.Template.substitute: placeholders {sorted(names - (have or set()))[:4]} may have no value')
+                return
         callees = env.resolve_call(n)
         # builtins with failure modes
         if isinstance(f, ast.Name) and prog.resolve_name(fn.module, f.id) is None and f.id not in env.vars \
